@@ -339,7 +339,10 @@ target address; (4) PCR statements store `target − address − size` (`fixOne`
 width of the field).
 The width invariant (the 8-bit PCR form is only chosen for offsets in −128..127) is proved in
 `Props/C03Width.lean` (`C03_pcr8_width`, `C03_pcr_label`); five counterexamples met on the way were repaired in
-/repo (aafdc4b, 8dc2b21, 0293787, 95bb240, ec1693d). -/
+/repo (aafdc4b, 8dc2b21, 0293787, 95bb240, ec1693d).  After repair batch B2 (`fix_addresses` range-checks the 8-bit
+PCR form against ADDRESSES) the PCR clause of `C03_Statement` holds for every accepted program, ORG or not
+(`C03_pcr_clause`, `C03_pcr8_in_range` in `Props/C03Width.lean`); `C03_Statement` is false through its BRANCH clause
+only (`C03_branch_org_counterexample`). -/
 theorem C03_partial :
     (∀ (ss : List Stmt) (i b : Nat) (s : Stmt), s.operand.kind = .relative → s.pkg.additional.int? = some b →
       (fixOne ss i s = .diag ↔
